@@ -494,7 +494,7 @@ func genMerkleCase(t *rapid.T) MerkleCase {
 	if n > 0 {
 		c.Probe = rapid.IntRange(0, n-1).Draw(t, "probe")
 	}
-	kinds := []string{"index", "total", "leaf", "aunt", "auntExtra", "auntMissing", "auntSwap"}
+	kinds := []string{"index", "total", "leaf", "aunt", "auntExtra", "auntMissing", "auntSwap", "rootEmpty"}
 	nm := rapid.IntRange(1, 6).Draw(t, "nmuts")
 	for i := 0; i < nm; i++ {
 		m := ProofMut{Kind: rapid.SampledFrom(kinds).Draw(t, "kind"), Bit: rapid.IntRange(0, 7).Draw(t, "bit")}
@@ -589,10 +589,30 @@ func runMerkleCase(c MerkleCase, x *h.Ctx) {
 			i := m.Param % len(aunts)
 			j := (i + 1) % len(aunts)
 			aunts[i], aunts[j] = aunts[j], aunts[i]
+		case "rootEmpty":
+			// the receiver's expected root is missing (nil or zero-length, e.g. a part-set header that
+			// names a part count but no hash): nothing is a member of such a tree, whatever the aunts
+			switch m.Param % 4 {
+			case 1:
+				aunts = nil
+			case 2:
+				aunts = append(aunts, refHash([]byte{byte(m.Param)}))
+			case 3:
+				if len(aunts) > 0 {
+					aunts = aunts[:len(aunts)-1]
+				}
+			}
+		}
+		expRoot := root
+		if m.Kind == "rootEmpty" {
+			expRoot = nil
+			if m.Bit%2 == 1 {
+				expRoot = []byte{}
+			}
 		}
 		// definition: the tuple is a valid inclusion statement for this tree iff it names the real
 		// total, an index in range, that index's leaf hash and exactly that index's aunts.
-		genuine := tot == n && idx >= 0 && idx < n && bytes.Equal(leaf, leaves[idx]) && auntsEqual(aunts, refAunts(leaves, idx))
+		genuine := m.Kind != "rootEmpty" && tot == n && idx >= 0 && idx < n && bytes.Equal(leaf, leaves[idx]) && auntsEqual(aunts, refAunts(leaves, idx))
 		if genuine {
 			continue // mutation was a no-op (e.g. swapped equal aunts, equal leaves)
 		}
@@ -605,7 +625,7 @@ func runMerkleCase(c MerkleCase, x *h.Ctx) {
 				}
 			}()
 			sp := merkle.SimpleProof{Aunts: aunts}
-			ok = sp.Verify(idx, tot, leaf, root)
+			ok = sp.Verify(idx, tot, leaf, expRoot)
 		}()
 		if x.Failed() {
 			return
